@@ -118,11 +118,13 @@ def to_list(x):
     if x is None or isinstance(x, (bool, int, float, str, SV)):
         return x
     if isinstance(x, SymArray):
+        if x.dtype.kind == "S":
+            return _strip_nul(x.vals.tolist(), x.ndim)
         return x.vals.tolist()
     if isinstance(x, np.ndarray):
         if x.dtype.kind == "S":
             k = x.dtype.itemsize
-            return np.frombuffer(x.tobytes(), dtype=np.uint8).reshape(x.shape + (k,)).tolist()
+            return _strip_nul(np.frombuffer(x.tobytes(), dtype=np.uint8).reshape(x.shape + (k,)).tolist(), x.ndim)
         return x.tolist()
     if isinstance(x, np.generic):
         return x.item()
@@ -149,6 +151,16 @@ def to_list(x):
     if dataclasses.is_dataclass(x):
         return {f.name: to_list(getattr(x, f.name)) for f in dataclasses.fields(x)}
     raise TypeError(f"to_list: {type(x)}")
+
+
+def _strip_nul(v, depth):
+    """byte strings ('S' arrays): drop the trailing NUL padding of each string"""
+    if depth == 0:
+        v = list(v)
+        while v and isinstance(v[-1], int) and v[-1] == 0:
+            v.pop()
+        return v
+    return [_strip_nul(i, depth - 1) for i in v]
 
 
 def _starts(r):
@@ -204,7 +216,7 @@ class Harness:
     stubs = ()
     assumptions = ()
     max_paths = 20000
-    job_timeout_s = 600
+    job_timeout_s = 300
 
     def skeletons(self, tier, seed):
         raise NotImplementedError
